@@ -134,6 +134,48 @@ EXTRA_REQUIRES.update({
 })
 
 
+_cols = lambda a: [c for k in ("ig", "ix", "iy", "iz") for c in (tm.mk_le(tm.ZERO, a[k]), tm.mk_lt(a[k], a["nf"]))] + \
+    [tm.mk_not(tm.mk_eq(a[x], a[y])) for x, y in (("ig", "ix"), ("ig", "iy"), ("ig", "iz"), ("ix", "iy"), ("ix", "iz"), ("iy", "iz"))]
+for _f in ("add_lp1_term_fwd", "add_lp1_term_bwd", "add_lp1_term_onsite_fwd", "add_lp1_term_onsite_bwd", "add_lp1_onsite_new_fwd", "add_lp1_onsite_new_bwd", "add_lp1_term_grad"):
+    # the l+1 steps address four distinct columns of rows of length nf (LCAOInterpolator: scratch / x / y / z slots of the feature block)
+    EXTRA_REQUIRES[_f] = _cols
+MONOTONE.update({"add_lp1_term_onsite_fwd": ["ar_loc"], "add_lp1_term_onsite_bwd": ["ar_loc"],
+                 "project_spline_to_conv": ["atco.ao_loc"], "SDMXylm_yzx2xyz": ["ylm_atom_loc"]})
+EXTRA_REQUIRES["project_spline_to_conv"] = lambda a: [tm.mk_le(tm.ZERO, a["offset_orb"]), tm.mk_le(a["offset_orb"] + a["nalpha"], a["orb_stride"])]
+for _f in ("SDMXcontract_ao_to_bas", "SDMXcontract_ao_to_bas_bwd", "SDMXcontract_ao_to_bas_l1", "SDMXcontract_ao_to_bas_l1_bwd"):
+    RANGE[_f] = {"rf_loc": lambda a: (tm.ZERO, a["nrf"] + 1)}
+MONOTONE.update({"compute_mol_convs_single_new": ["loc_i"], "compute_pot_convs_single_new": ["loc_i"]})
+
+
+def _ylm_blocks(terms_):
+    """ylm_atom_loc delimits per-atom blocks of (lmax+1)^2 rows: a block with more than one row has at least four (l = 1 is complete)."""
+    out, seen = [], set()
+    for t in terms_:
+        for u in tm.subterms(t).values():
+            if u.op == "fi" and u.args[0] == "ylm_atom_loc" and u.args[1].id not in seen:
+                seen.add(u.args[1].id)
+                a = u.args[1]
+                d = tm.mk_fi("ylm_atom_loc", a + 1) - tm.mk_fi("ylm_atom_loc", a)
+                out.append(tm.mk_implies(tm.mk_lt(tm.ONE, d), tm.mk_le(tm.const(4), d)))
+                out.append(tm.mk_le(tm.ZERO, d))
+    return out
+
+
+CUSTOM = {"SDMXylm_yzx2xyz": _ylm_blocks}
+INJECTIVE = {"compute_mol_convs_single_new": ["ind_ord_fwd"], "compute_pot_convs_single_new": ["ind_ord_fwd"]}
+# functions whose race freedom depends on invariants of the C-built basis-set structs (AO count per shell = 2l+1, (lmax+1)^2 <= nlm, pair tables)
+# or on floating-point valued indices: not attempted — reported as unverified, never counted
+SKIP = {
+    "fill_l1_coeff_fwd": "needs shell-size invariants relating atco0 (l+1 shells) and atco1", "fill_l1_coeff_bwd": "needs shell-size invariants relating atco0 and atco1",
+    "project_conv_to_spline": "needs nm = 2l+1 and (l+1)^2 <= nlm for every shell", "generate_atc_integrals_vj": "pair_loc layout of convolution_collection",
+    "generate_atc_integrals_vi": "pair_loc layout of convolution_collection", "compute_num_spline_contribs": "index computed from floor(log(distance)): needs floating-point range reasoning",
+    "compute_num_spline_contribs_new": "index computed from floor(log(distance))", "contract_rad_to_orb": "needs ar_loc/ra_loc consistency and shell-size invariants",
+    "contract_orb_to_rad": "needs shell-size invariants ((l+1)^2 <= nlm)", "contract_rad_to_orb_num": "uloc_l / jloc_l scratch tables built inside the region",
+    "contract_orb_to_rad_num": "needs (l+1)^2 <= nlm", "write_fft_input": "covered by C20 (layout arithmetic with the plan struct)", "read_fft_output": "covered by C20",
+    "SDMXylm_yzx2xyz": "div/mod decomposition of a collapsed (atom, block) index with a per-component stride: undecided by z3/cvc5 within budget",
+}
+
+
 def nonneg_hyps(args):
     """Sizes are non-negative ints (every integer scalar parameter); strictly positive where the wrapper guarantees it is left to REQUIRES."""
     hy = []
@@ -186,6 +228,9 @@ def summarise(rel, fn, fixed=None):
 def unit_function(rel, fn):
     def run(ctx):
         fq = ["lib/%s:%s" % (rel, fn)]
+        if fn in SKIP:
+            ctx.assume("UNVERIFIED lib/%s:%s — %s" % (rel, fn, SKIP[fn]))
+            return
         cases = [None]
         if fn in ENUM:
             (pname, vals), = ENUM[fn].items()
@@ -197,6 +242,9 @@ def unit_function(rel, fn):
             except CUnsupported as e:
                 # outside the supported C subset: reported as unverified, not claimed (the registry unit lists it)
                 ctx.assume("UNVERIFIED lib/%s:%s — left the supported C subset: %s" % (rel, lab, str(e)[:160]))
+                if fn in expected_verified():
+                    # it was under contract on the tree the expectations were recorded on: the edit took it out of the engine's reach
+                    ctx.undecided("%s.summarised" % lab, "function was verified before and now leaves the supported C subset: %s" % str(e)[:160], fq)
                 continue
             check_summary(ctx, rel, fn, lab, s, args, fq)
     return run
@@ -212,7 +260,7 @@ def check_summary(ctx, rel, fn, lab, s, args, fq):
         tabs = instantiate_tables(s, MONOTONE.get(fn, []))
         # renamed copies of the table index terms are produced inside independence_obligations; monotonicity must relate them to the originals,
         # so the instances are generated there through a hook
-        hy_tab = TableHyps(tabs, {k: f(args) for k, f in RANGE.get(fn, {}).items()})
+        hy_tab = TableHyps(tabs, {k: f(args) for k, f in RANGE.get(fn, {}).items()}, INJECTIVE.get(fn, []), CUSTOM.get(fn))
         n = independence(ctx, lab, s, hyps, hy_tab, fq)
         scalar_obligations(ctx, lab, s, fq)
         if fn in PARTITIONS:
@@ -231,12 +279,26 @@ def scalar_obligations(ctx, label, sym, fq):
 
 
 class TableHyps(object):
-    def __init__(self, tabs, ranges=None):
+    def __init__(self, tabs, ranges=None, injective=(), custom=None):
         self.tabs = [t[1] for t in tabs]
         self.ranges = ranges or {}
+        self.injective = list(injective)
+        self.custom = custom
 
     def instances(self, terms_):
-        out = []
+        out = list(self.custom(terms_)) if self.custom else []
+        for tab in self.injective:
+            idxs, seen = [], set()
+            for t in terms_:
+                for u in tm.subterms(t).values():
+                    if u.op == "fi" and u.args[0] == tab and u.args[1].id not in seen:
+                        seen.add(u.args[1].id)
+                        idxs.append(u.args[1])
+            for a in idxs:
+                out.append(tm.mk_le(tm.ZERO, tm.mk_fi(tab, a)))
+                for b in idxs:
+                    if a is not b:
+                        out.append(tm.mk_implies(tm.mk_eq(tm.mk_fi(tab, a), tm.mk_fi(tab, b)), tm.mk_eq(a, b)))
         for tab, (lo, hi) in self.ranges.items():
             seen = set()
             for t in terms_:
@@ -286,6 +348,7 @@ def independence(ctx, label, sym, hyps, hy_tab, fq):
             seen_a.add(a.id)
             assumes.append(a)
     hyps = list(hyps)
+    canary_done = []
     evs = [e for e in sym.events if e.level in ("loop", "thread", "single") and not e.arr.private]
     writes = oblig._dedupe_l([e for e in evs if e.kind == "w"])
     reads = oblig._dedupe_l([e for e in evs if e.kind == "r"])
@@ -309,6 +372,13 @@ def independence(ctx, label, sym, hyps, hy_tab, fq):
                     diff += [tm.mk_not(tm.mk_eq(a, m.get(b, b))) for a, b in zip(w1.par_extra, e2.par_extra)]
                 cs.append(tm.mk_or(*diff))
             cs += hy_tab.instances(cs)
+            if same_construct and not canary_done and e2 is w1:
+                # vacuity guard: without "different iterations" the same access obviously meets itself — the hypotheses must allow that
+                canary_done.append(1)
+                cs0 = [c for c in cs if c is not cs[len(list(hyps)) + len(rel) + len(w1.guards) + len(g2) + len(extra) + 1]]
+                r0, _, be0 = intarith.check_sat_int(cs0, 5.0)
+                ctx._rec("canary", "%s.race-free canary (same iteration allowed: must be satisfiable)" % label,
+                         vc.Verdict("refuted" if r0 == "sat" else ("discharged" if r0 == "unsat" else "undecided"), be0), fq)
             n += 1
             r, env, be = intarith.check_sat_int(cs, 3.0 if ctx.tier == "quick" else 30.0)
             name = "%s.race-free[%s %s[%s] vs %s[%s]%s]#%d" % (label, "w/w" if e2.kind == "w" else "w/r", w1.arr.name, tm.show(w1.idx, 40), e2.arr.name, tm.show(e2.idx, 40),
@@ -320,31 +390,140 @@ def independence(ctx, label, sym, hyps, hy_tab, fq):
             else:
                 ctx.undecided(name, "solver unknown", fq)
     if n == 0:
-        ctx.holds("%s.race-free (no shared array is written inside the region)" % label, not writes, "", fq)
+        ctx.holds("%s.race-free (no pair of accesses by different threads in one barrier phase: shared writes only inside critical / single blocks)" % label,
+                  all(w.level == "single" for w in writes), "%s" % [repr(w)[:80] for w in writes if w.level != "single"][:3], fq)
     return n
 
 
 # ------------------------------------------------------------------ manual partitions
-def partition_by_blocks(nblocks_of, blk_of, total_of, what):
-    """The ranges [b*blk, min(b*blk + blk, total)) for b in [0, nblocks) are pairwise disjoint and cover [0, total) exactly once."""
+def ieval(t, env):
+    """Exact integer evaluation (C semantics for idiv / imod) of index terms and guards."""
+    t = tm.lift(t)
+    op = t.op
+    if op == "c":
+        return int(t.args[0]) if t.args[0].denominator == 1 else t.args[0]
+    if op == "v":
+        return env[t]
+    if op == "+":
+        return sum(ieval(a, env) for a in t.args)
+    if op == "*":
+        r = 1
+        for a in t.args:
+            r *= ieval(a, env)
+        return r
+    if op == "^":
+        return ieval(t.args[0], env) ** int(ieval(t.args[1], env))
+    if op == "f" and t.args[0] in ("idiv", "imod"):
+        x, y = ieval(t.args[1], env), ieval(t.args[2], env)
+        if y == 0:
+            raise ZeroDivisionError
+        q = abs(x) // abs(y)
+        q = q if (x >= 0) == (y >= 0) else -q
+        return q if t.args[0] == "idiv" else x - q * y
+    if op == "ite":
+        return ieval(t.args[1], env) if ieval(t.args[0], env) else ieval(t.args[2], env)
+    if op == "<":
+        return ieval(t.args[0], env) < ieval(t.args[1], env)
+    if op == "<=":
+        return ieval(t.args[0], env) <= ieval(t.args[1], env)
+    if op == "==":
+        return ieval(t.args[0], env) == ieval(t.args[1], env)
+    if op == "and":
+        return all(ieval(a, env) for a in t.args)
+    if op == "or":
+        return any(ieval(a, env) for a in t.args)
+    if op == "not":
+        return not ieval(t.args[0], env)
+    if op == "T":
+        return True
+    if op == "F":
+        return False
+    raise KeyError("ieval: %s" % op)
+
+
+def partition_cover(arr, kind, level, total_name, what):
+    """(iv) The set of positions  { P(t, g) : guards(t, g) }  visited by the partitioned loop is [0, total) for every team size:
+    t is the thread / block variable (the construct's parallel variable), g the innermost loop variable of the selected access, and
+    P the part of its index that depends on (t, g).  Existence is proved with the witness t = P div c, g = P - c*t, c being the
+    coefficient of t read off the real code's index (or loop bound); if that proof fails a concrete team size / length with an unvisited
+    position is searched for by exact evaluation of the real guards (a refutation with a failing input)."""
     def check(ctx, fn, s, args, hyps, fq):
-        nb, blk, total = nblocks_of(s, args), blk_of(s, args), total_of(s, args)
-        g, b, b2 = I("G"), I("B"), I("B2")
-        H = list(hyps) + oblig.side_hyps(s) + [tm.mk_le(tm.ZERO, g), tm.mk_lt(g, total)]
-        inblk = lambda bb: tm.mk_and(tm.mk_le(tm.ZERO, bb), tm.mk_lt(bb, nb), tm.mk_le(bb * blk, g), tm.mk_lt(g, tm.mk_min(bb * blk + blk, total)))
-        # existence with the witness B = G div blk
-        wit = tm.mk_fn("idiv", g, blk)
-        ctx.valid("%s.partition[%s] covers: every index below the total lies in block G div blk" % (fn, what), H + [tm.mk_lt(tm.ZERO, blk)], inblk(wit), fq)
-        ctx.valid("%s.partition[%s] block length is positive whenever the range is not empty" % (fn, what), H, tm.mk_lt(tm.ZERO, blk), fq)
-        ctx.valid("%s.partition[%s] blocks are pairwise disjoint" % (fn, what), H + [inblk(b), inblk(b2)], tm.mk_eq(b, b2), fq)
+        from pyvc.nf import NF
+        evs = [e for e in s.events if e.arr.name == arr and e.kind == kind and e.level == level and e.par is not None and e.qvars]
+        ctx.holds("%s.partition[%s] the partitioned access %s[...] is present" % (fn, what, arr), bool(evs), "", fq)
+        if not evs:
+            return
+        ev = evs[0]
+        t, gq = ev.par, ev.qvars[-1][0]
+        total = args[total_name]
+        nfc = NF()
+        z = lambda term, tv, gv: tm.substitute(term, {t: tm.lift(tv), gq: tm.lift(gv)})
+        P = nfc.rf_to_term(nfc.nf(ev.idx - z(ev.idx, 0, 0)))
+        c = nfc.rf_to_term(nfc.nf(z(P, 1, 0)))
+        mine = [g for g in ev.guards if t in tm.subterms(g).values() or gq in tm.subterms(g).values()]
+        if c is tm.ZERO:
+            # the thread variable enters through the loop bounds only: block length = coefficient of t in the lower bound of g
+            los = [g.args[0] for g in mine if g.op == "<=" and g.args[1] is gq and t in tm.subterms(g.args[0]).values()]
+            c = nfc.rf_to_term(nfc.nf(tm.substitute(los[0], {t: tm.ONE}) - tm.substitute(los[0], {t: tm.ZERO}))) if los else tm.ONE
+        G = I("G")
+        tw = tm.mk_fn("idiv", G, c)
+        gw = G - c * tw if t in tm.subterms(P).values() else G
+        assumes = [a for a in oblig.side_hyps(s)]
+        rel = relevant(assumes, [ev.idx] + mine)
+        H = list(hyps) + [a for a in rel if not (t in tm.subterms(a).values() or gq in tm.subterms(a).values())] + [tm.mk_le(tm.ZERO, G), tm.mk_lt(G, total)]
+        goal = tm.mk_and(*([z(g_, tw, gw) for g_ in mine] + [tm.mk_eq(z(P, tw, gw), G)]))
+        name = "%s.partition[%s] every position below %s is visited by some thread / block, for every team size" % (fn, what, total_name)
+        r, env, be = intarith.check_sat_int(H + [tm.mk_lt(tm.ZERO, c), tm.mk_not(goal)], 10.0 if ctx.tier == "quick" else 60.0)
+        if r == "unsat":
+            ctx._rec("obligation", name, vc.Verdict("discharged", be), fq)
+        else:
+            # search a concrete failing input on the real guards
+            free = sorted(set(u for g_ in mine + [P] for u in tm.free_vars(g_)) - {t, gq}, key=lambda u: u.args[0])
+            bad = None
+            if all(u.args[1] == "I" and not any(x.op == "fi" for g_ in mine for x in tm.subterms(g_).values()) for u in free) and len(free) <= 4:
+                import itertools as _it
+                for vals in _it.product(*[range(0 if "thread" not in u.args[0] else 1, 14 if u is total or u.args[0] == total_name else 7) for u in free]):
+                    env0 = dict(zip(free, vals))
+                    tot = env0.get(total, None) if isinstance(total, tm.T) else None
+                    if tot is None:
+                        continue
+                    trange = ev.qvars[0]
+                    try:
+                        tlo, thi = ieval(trange[1], env0), ieval(trange[2], env0)
+                        visited = set()
+                        for tv in range(tlo, thi):
+                            for gv in range(0, tot + 2):
+                                e2 = dict(env0)
+                                e2[t], e2[gq] = tv, gv
+                                if all(ieval(g_, e2) for g_ in mine):
+                                    visited.add(ieval(P, e2))
+                    except (ZeroDivisionError, KeyError):
+                        continue
+                    miss = [x for x in range(tot) if x not in visited]
+                    if miss:
+                        bad = {u.args[0]: v for u, v in env0.items()}
+                        bad["unvisited_positions"] = miss[:8]
+                        break
+            if bad is not None:
+                ctx._rec("obligation", name, vc.Verdict("refuted", "exact evaluation of the loop guards", "positions of [0, %s) that no thread / block visits" % total_name, witness=bad), fq)
+            else:
+                ctx.undecided(name, "witness proof failed and no small counterexample found", fq)
+        # positive block length whenever there is something to do
+        r2, _, be2 = intarith.check_sat_int(H + [tm.mk_le(c, tm.ZERO)], 10.0)
+        if r2 == "unsat":
+            ctx._rec("obligation", "%s.partition[%s] block length positive when the range is non-empty" % (fn, what), vc.Verdict("discharged", be2), fq)
+        elif bad is None if "bad" in dir() else True:
+            ctx.undecided("%s.partition[%s] block length positive when the range is non-empty" % (fn, what), "solver", fq)
     return check
 
 
-def _find_scalar(s, name):
-    return s.final_env.get(name)
-
-
-PARTITIONS = {}
+PARTITIONS = {
+    "contract_grad_terms_parallel": partition_cover("f_g", "r", "thread", "ngrids", "grid points by thread number"),
+    "SDMXcontract_ao_to_bas": partition_cover("vbas", "w", "loop", "ngrids", "grid points by block"),
+    "SDMXcontract_ao_to_bas_bwd": partition_cover("vbas", "r", "loop", "ngrids", "grid points by block"),
+    "SDMXcontract_ao_to_bas_l1": partition_cover("vbas", "w", "loop", "ngrids", "grid points by block"),
+    "SDMXcontract_ao_to_bas_l1_bwd": partition_cover("vbas", "r", "loop", "ngrids", "grid points by block"),
+}
 
 
 def units():
@@ -352,6 +531,17 @@ def units():
     for rel, fn in omp_functions():
         u.append(("%s/%s" % (os.path.basename(rel), fn), unit_function(rel, fn)))
     return u
+
+
+_EXPECTED = [None]
+
+
+def expected_verified():
+    if _EXPECTED[0] is None:
+        import json
+        p = os.path.join(os.path.dirname(os.path.abspath(__file__)), "c10_expected.json")
+        _EXPECTED[0] = set(json.load(open(p))) if os.path.exists(p) else set()
+    return _EXPECTED[0]
 
 
 def unit_registry(ctx):
